@@ -283,7 +283,7 @@ c11_ok! {c11_from_fn_val_ok_n3, run_from_fn_val, FROM_FN_VAL_FORMS, 3, true, "C1
 macro_rules! c11_guard {
     ($name:ident, $run:ident, $forms:ident, $n:literal, $with_continue:literal, $o_sentinel:literal) => {
         harness! {
-            /// kind=bounded tier=quick bound="array length N fixed per harness (1,2,3), every closure form, one unlabelled break (by-value macros: break or continue) at a symbolic call number < N, symbolic values before it" expect_fail="assertion failed: i == len|in konst::array::ArrayBuilder::<.*>::build"
+            /// kind=bounded tier=quick bound="array length N fixed per harness (1,2,3), every closure form, one unlabelled break (by-value macros: break or continue) at a symbolic call number < N, symbolic values before it" expect_fail="assertion failed: i == len|placeholder message.* in konst::array::ArrayBuilder::<"
             #[kani::unwind(7)]
             fn $name(s) {
                 const N: usize = $n;
@@ -556,7 +556,7 @@ c11_builder_ops! {c11_builder_ops_n2, 2}
 c11_builder_ops! {c11_builder_ops_n3, 3}
 
 harness! {
-    /// kind=bounded tier=quick bound="ArrayBuilder<u8, N>, N in {0,1,2,3}: N pushes, optionally cloned, then one more push" expect_fail="in konst::array::ArrayBuilder::<.*>::push"
+    /// kind=bounded tier=quick bound="ArrayBuilder<u8, N>, N in {0,1,2,3}: N pushes, optionally cloned, then one more push" expect_fail="placeholder message.* in konst::array::ArrayBuilder::<"
     #[kani::unwind(7)]
     fn c11_builder_push_full_panics(s) {
         fn go<S: Src, const N: usize>(s: &mut S) {
@@ -585,7 +585,7 @@ harness! {
 }
 
 harness! {
-    /// kind=bounded tier=quick bound="ArrayBuilder<u8, N>, N in {1,2,3}: k < N pushes (k symbolic), optionally cloned, then build" expect_fail="in konst::array::ArrayBuilder::<.*>::build"
+    /// kind=bounded tier=quick bound="ArrayBuilder<u8, N>, N in {1,2,3}: k < N pushes (k symbolic), optionally cloned, then build" expect_fail="placeholder message.* in konst::array::ArrayBuilder::<"
     #[kani::unwind(7)]
     fn c11_builder_build_nonfull_panics(s) {
         fn go<S: Src, const N: usize>(s: &mut S) {
